@@ -27,7 +27,10 @@ func eexec(intp *Interpreter) error {
 	}
 	intp.Stack = intp.Stack[:len(intp.Stack)-1]
 
-	k := len(intp.DictStack)
+	// remember the dictionary stack, so that it can be restored afterwards
+	// whatever the encrypted part does to it
+	saved := make([]Dict, len(intp.DictStack))
+	copy(saved, intp.DictStack)
 	intp.DictStack = append(intp.DictStack, intp.SystemDict)
 
 	s := intp.scanners[len(intp.scanners)-1]
@@ -41,7 +44,7 @@ func eexec(intp *Interpreter) error {
 	}
 	s.EndEexec()
 
-	intp.DictStack = intp.DictStack[:k]
+	intp.DictStack = saved
 	return nil
 }
 
